@@ -200,6 +200,7 @@ def run_case(cmd, timeout=120, env=None, tag=None, stdin=None):
     e.update(SAN_ENV)
     if env:
         e.update(env)
+    e["VERIF_BACKSTOP"] = str(int(timeout) + 20)   # engines arm alarm() with it: no orphan outlives its driver
     t0 = time.time()
     try:
         p = subprocess.Popen(cmd, stdout=subprocess.PIPE, stderr=subprocess.PIPE, env=e,
@@ -313,7 +314,7 @@ def sanitizer_key(err):
                     break
                 first = False
                 continue
-            if "/src/" in path:
+            if path.startswith(os.path.join(REPO, "src")) or path.startswith("/repo/src"):
                 where = fn
                 break
             if not (fn.startswith("__") or "sanitizer" in path or "asan" in path or fn in ("memcpy", "memset", "memcmp", "memmove", "free", "malloc", "realloc")):
@@ -471,11 +472,13 @@ def absorb(chk, res, replay_extra=None, own_props=None):
         chk.violation(key, detail, dict(rp, stdout_tail=res.out[-3000:]), prop=prop)
     if res.timed_out:
         return rec, "timeout"
-    if res.rc != 0 and not rec["viol"]:
+    if res.rc != 0:
         sk = sanitizer_key(res.err)
         if sk:
             return rec, ("harness-san:" + sk) if sk.startswith("HARNESS:") else ("san:" + sk)
-        return rec, "crash:rc=%s" % res.rc
+        if not rec["viol"]:
+            return rec, "crash:rc=%s" % res.rc
+        return rec, None
     if not rec["ok"] and not rec["viol"]:
         return rec, "noend"
     return rec, None
